@@ -85,7 +85,14 @@ def run(ctx: Ctx, tier: str) -> Result:
         res.fail(Finding("C10.TABLE", fi.qname, X, fi.loc(), "the condition's truth is not derived from str(evaluate_expression(condition)).lower(): %s" % X))
     for sub, has in (("deep.processor.context.metric_action.MetricActionContext", "has_metric_processor"),
                      ("deep.processor.context.span_action.SpanActionContext", "has_span_processor")):
-        sf = p.func(sub + ".can_trigger")
+        sf = p.functions.get(sub + ".can_trigger")
+        if sf is None:
+            # the override is gone: the action goes through the base decision, triggers with no processor to report to,
+            # and the hit is counted against the tracepoint's fire budget
+            res.fail(Finding("C10.TABLE", sub, "<def can_trigger: no %s -> False>" % has, p.cls(sub).module.relpath,
+                             "%s has no can_trigger of its own any more: with no processor active the action still triggers, nothing is reported but the hit uses up "
+                             "the tracepoint's fire count / period" % sub.rsplit(".", 1)[-1]))
+            continue
         st = Table(ctx, sf)
         marker = has.split("_")[1].capitalize()          # Metric / Span
         hs_t = [k for k in st.vars.truths if has in k or (marker + "Processor") in k]
@@ -217,6 +224,16 @@ def run(ctx: Ctx, tier: str) -> Result:
                     res.fail(Finding("C10.SCOPE", mf.qname, mn, mf.loc(mn), "`%s` modifies the tracepoint arguments, which every action builder of the same tracepoint "
                                      "receives: the actions built afterwards see no condition and fire unconditionally" % norm(mn)[:60]))
     res.floor("action builders", nb, 4)
+    # ... and the action keeps that text as it is: what is evaluated on a hit is the configured condition, character for
+    # character (white space inside a text literal is part of the expression)
+    cst = [(sf, v) for sf, v, _ in t.field_stores(p.cls(LA), "_LocationAction__condition")] or [(sf, v) for sf, v, _ in t.field_stores(p.cls(LA), "__condition")]
+    if cst and all(sf is la_init and isinstance(v, ast.Name) and v.id == "condition" for sf, v in cst):
+        res.ok("C10.SCOPE", {"the action stores the condition text unchanged": la_init.loc(cst[0][1])})
+    else:
+        bad_ = next(((sf, v) for sf, v in cst if not (sf is la_init and isinstance(v, ast.Name) and v.id == "condition")), None)
+        res.fail(Finding("C10.SCOPE", (bad_[0] if bad_ else la_init).qname, bad_[1] if bad_ else "<self.__condition = condition>", (bad_[0] if bad_ else la_init).loc(bad_[1]) if bad_ else la_init.loc(),
+                         "the action does not keep the condition text as configured (`%s`): the gate evaluates another expression than the one the tracepoint carries" % (
+                             norm(bad_[1])[:60] if bad_ else "no store")))
     gf = [f for f in p.functions.values() if f.name == "get_field" and "log_action" in f.module.name]
     need(len(gf) == 1, "log field evaluator get_field not found")
     gcalls = [c for c in t.calls_in(gf[0]) if watchf in t.resolve_call(c, gf[0]).repo]
@@ -299,6 +316,15 @@ def run(ctx: Ctx, tier: str) -> Result:
     res.floor("functions below the trace callback", len(scope_), 60)
 
     # ---------------- CONTAIN
+    # whatever goes wrong while a watch / log field is evaluated or its value recorded stays inside eval_watch: the caller gets
+    # the error result of that one expression
+    esc_ = g.escape_tokens(p.func(AC + ".eval_watch"))
+    if not esc_:
+        res.ok("C10.CONTAIN", {"nothing escapes eval_watch": True})
+    for tok_, ch_ in sorted(esc_.items())[:2]:
+        ewf0 = p.func(AC + ".eval_watch")
+        res.fail(Finding("C10.CONTAIN", ewf0.qname, "<escape %s>" % tok_, ewf0.loc(), "%s can leave eval_watch: a value whose collection fails (a __str__ raising a BaseException, an internal error) "
+                         "takes the whole snapshot / log line with it instead of yielding an error result for this expression" % tok_, path=g.fmt_chain(ch_)))
     for _, other in good_sites[:-1]:
         if g.catching_try(other, ev, "BaseException") is None:
             res.fail(Finding("C10.CONTAIN", ev.qname, other, ev.loc(other), "the eval call is not enclosed by a handler for BaseException: a failing expression is raised instead of yielding an error value"))
